@@ -104,7 +104,7 @@ func (c *Container) Add(service *WebService) *Container {
 
 	// If not registered on root then add specific mapping
 	if !c.isRegisteredOnRoot {
-		c.isRegisteredOnRoot = c.addHandler(service, c.ServeMux)
+		c.isRegisteredOnRoot = c.addHandler(service, c.ServeMux, c.webServices)
 	}
 	c.webServices = append(c.webServices, service)
 	return c
@@ -112,27 +112,29 @@ func (c *Container) Add(service *WebService) *Container {
 
 // addHandler may set a new HandleFunc for the serveMux
 // this function must run inside the critical region protected by the webServicesLock.
+// registered are the WebServices that were given to addHandler for this serveMux before.
 // returns true if the function was registered on root ("/")
-func (c *Container) addHandler(service *WebService, serveMux *http.ServeMux) bool {
+func (c *Container) addHandler(service *WebService, serveMux *http.ServeMux, registered []*WebService) bool {
 	pattern := fixedPrefixPath(service.RootPath())
 	// check if root path registration is needed
 	if "/" == pattern || "" == pattern {
 		serveMux.HandleFunc("/", c.dispatch)
 		return true
 	}
-	// detect if registration already exists
-	alreadyMapped := false
-	for _, each := range c.webServices {
-		if each != service && each.RootPath() == service.RootPath() {
-			alreadyMapped = true
-			break
+	// detect which registrations already exist ; root paths that share their fixed prefix share the patterns
+	mapped := map[string]bool{}
+	for _, each := range registered {
+		other := fixedPrefixPath(each.RootPath())
+		mapped[other] = true
+		if !strings.HasSuffix(other, "/") {
+			mapped[other+"/"] = true
 		}
 	}
-	if !alreadyMapped {
+	if !mapped[pattern] {
 		serveMux.HandleFunc(pattern, c.dispatch)
-		if !strings.HasSuffix(pattern, "/") {
-			serveMux.HandleFunc(pattern+"/", c.dispatch)
-		}
+	}
+	if !strings.HasSuffix(pattern, "/") && !mapped[pattern+"/"] {
+		serveMux.HandleFunc(pattern+"/", c.dispatch)
 	}
 	return false
 }
@@ -153,7 +155,7 @@ func (c *Container) Remove(ws *WebService) error {
 		if each.rootPath != ws.rootPath {
 			// If not registered on root then add specific mapping
 			if !newIsRegisteredOnRoot {
-				newIsRegisteredOnRoot = c.addHandler(each, newServeMux)
+				newIsRegisteredOnRoot = c.addHandler(each, newServeMux, newServices)
 			}
 			newServices = append(newServices, each)
 		}
